@@ -124,6 +124,17 @@ theorem hash_corner_witness :
              (.node cBMS [.sym ws, .sym wm1, .sym wm2] [.str "builtins.NoneType"]) = false := by
   decide +kernel
 
+/-- function-valued attributes are opaque tokens with the identity of the Python object: two closures
+of one factory (same qualified name, `#0`/`#1`) are different attributes, hence different instances;
+the same function twice gives equal instances. (A `_get_hashable_object` that maps functions to their
+qualified name would identify the first pair: the correspondence and the oracle run such pairs.) -/
+example :
+    Expr.eqv (.node cBMS [.sym ws] [.obj "fn:tools.corr.C14.make_phsp_factor.<locals>.phsp_factor#0"])
+             (.node cBMS [.sym ws] [.obj "fn:tools.corr.C14.make_phsp_factor.<locals>.phsp_factor#1"]) = false ∧
+    Expr.eqv (.node cBMS [.sym ws] [.obj "fn:tools.corr.C14.make_phsp_factor.<locals>.phsp_factor#0"])
+             (.node cBMS [.sym ws] [.obj "fn:tools.corr.C14.make_phsp_factor.<locals>.phsp_factor#0"]) = true := by
+  decide +kernel
+
 /-! ### 3. rebuilding from own arguments -/
 
 /-- `expr.func(*expr.args)` reproduces an instance of a class whose fields are all SymPy arguments. -/
